@@ -413,6 +413,18 @@ def table_completeness(ctx: Ctx) -> None:
         ctx.expect("R-TABLE", (CV, ""), f"no key of INVALID_PROPERTIES[{tbl_name}] is listed under two kinds", not dup, "", f"{dup}: the first kind in table order decides")
         sm_fields = set(p.const("simfile.sm", "SM_CHART_PROPERTIES")) if tbl_name == "SMChart" else set()
         ctx.expect("R-TABLE", (CV, ""), f"INVALID_PROPERTIES[{tbl_name}] lists no property the SM format holds", not (set(seen) & sm_fields), "", f"{sorted(set(seen) & sm_fields)}")
+    # the same property has the same kind on simfile and chart level (sibling tables must agree)
+    cht = inv.get(ClassRef("simfile.sm.SMChart"), {})
+    kind_of = {}
+    for tbl_name, tbl in (("SMSimfile", smt), ("SMChart", cht)):
+        for kind, keys in tbl.items():
+            for k in keys:
+                kind_of.setdefault(k, {})[tbl_name] = kind.name
+    both = {k: v for k, v in kind_of.items() if len(v) == 2}
+    for k, v in sorted(both.items()):
+        ctx.expect("R-TABLE", (CV, ""), f"{k} has the same kind on simfile and chart level", v["SMSimfile"] == v["SMChart"], str(v),
+                   f"{k} is {v['SMSimfile']} for a simfile but {v['SMChart']} for a chart: the caller's behaviour for one kind is applied to the same property differently on the two levels")
+    ctx.floor("properties listed on both levels", len(both), 6)
     beh = p.const(CV, "INVALID_PROPERTY_BEHAVIORS")
     got = {k.name: v.name for k, v in beh.items()}
     kinds = set(p.enum_members(p.cls(f"{CV}.PropertyType")).keys())
